@@ -1,5 +1,255 @@
-use crate::util::{Args, Report};
-pub fn run(_a: &Args, _r: &mut Report) {
-    eprintln!("not implemented yet");
-    std::process::exit(2);
+//! C07 — every accepted message serialises to well-formed, self-consistent JSON.
+use crate::oracle::bits::Bits;
+use crate::oracle::recorder::{self, V};
+use crate::oracle::{frames, json as sjson};
+use crate::props::common;
+use crate::util::{fnv, guarded, hexs, msg_class, short_loc, Args, Report, Rng};
+use rs1090::decode::{Message, SensorMetadata, TimedMessage};
+use serde_json::json;
+
+/// shape label that does not depend on free bits (so that signatures are narrow but stable)
+fn shape_of(m: &Message) -> String {
+    let c = common::classify(m);
+    // DF20/21: keep only the register list
+    c.replace(":Barometric", "").replace(":Gnss", "").split(":nucp").next().unwrap_or("").to_string()
+}
+
+pub fn check_frame(r: &mut Report, bytes: &[u8], origin: &str) -> bool {
+    r.evaluations += 1;
+    let rp = || json!({"frame": hexs(bytes), "origin": origin});
+    let msg = match guarded(|| Message::try_from(bytes)) {
+        Err(_) | Ok(Err(_)) => {
+            r.class("not-accepted");
+            return false;
+        }
+        Ok(Ok(m)) => m,
+    };
+    let shape = shape_of(&msg);
+    let text = match guarded(|| serde_json::to_string(&msg)) {
+        Err((loc, m)) => {
+            r.violation(&format!("C07:panic:serialize:{}", short_loc(&loc)), format!("serialising {} panicked: {}", hexs(bytes), msg_class(&m)), rp());
+            return true;
+        }
+        Ok(Err(e)) => {
+            r.violation(&format!("C07:serialize-error:{shape}"), format!("{} ({shape}) is accepted but serde_json::to_string fails: {e}", hexs(bytes)), rp());
+            return true;
+        }
+        Ok(Ok(t)) => t,
+    };
+    let mut ok = true;
+    if text.contains('\n') || text.contains('\r') {
+        ok = false;
+        r.violation(&format!("C07:newline:{shape}"), format!("JSON of {} contains a line break", hexs(bytes)), rp());
+    }
+    let tree = match sjson::parse(&text) {
+        Err(e) => {
+            r.violation(&format!("C07:malformed:{shape}:{}", e.split(' ').take(2).collect::<Vec<_>>().join("_")), format!("JSON of {} is rejected by a strict parser: {e}: {}", hexs(bytes), &text[..text.len().min(300)]), rp());
+            return true;
+        }
+        Ok(t) => t,
+    };
+    if !matches!(tree, V::Map(_)) {
+        ok = false;
+        r.violation(&format!("C07:not-an-object:{shape}"), format!("JSON of {} is not an object", hexs(bytes)), rp());
+    }
+    match recorder::record(&msg) {
+        Err(e) => {
+            ok = false;
+            r.violation(&format!("C07:recorder-error:{shape}"), format!("{}: a generic serde serializer fails: {e}", hexs(bytes)), rp());
+        }
+        Ok(v) => {
+            let f = recorder::flatten(&v);
+            if !f.dup_keys.is_empty() {
+                ok = false;
+                r.violation(&format!("C07:duplicate-key:{shape}:{}", f.dup_keys[0]), format!("{}: duplicate keys {:?}", hexs(bytes), f.dup_keys), rp());
+            }
+            if !f.nonfinite.is_empty() {
+                ok = false;
+                r.violation(&format!("C07:non-finite:{shape}"), format!("{}: non-finite numbers {:?} (JSON text shows null)", hexs(bytes), f.nonfinite), rp());
+            }
+        }
+    }
+    // df / icao24
+    if let Some((df, addr)) = common::carried_address(bytes) {
+        let want_df = df.to_string();
+        let want_icao = format!("{addr:06x}");
+        let got_df = tree.get("df").and_then(|v| v.as_str().map(|s| s.to_string()));
+        let got_icao = tree.get("icao24").and_then(|v| v.as_str().map(|s| s.to_string()));
+        if got_df.as_deref() != Some(want_df.as_str()) {
+            ok = false;
+            r.violation(&format!("C07:df:{shape}"), format!("{}: JSON df = {:?}, frame is DF{df}", hexs(bytes), got_df), rp());
+        }
+        if got_icao.as_deref() != Some(want_icao.as_str()) {
+            ok = false;
+            r.violation(&format!("C07:icao24:DF{df}"), format!("{}: JSON icao24 = {:?}, frame carries {want_icao}", hexs(bytes), got_icao), rp());
+        }
+    }
+    // timed record keeps the frame; re-decoding it gives the same fields
+    let tm = TimedMessage {
+        timestamp: 1_700_000_000.25,
+        frame: bytes.to_vec(),
+        message: Some(msg.clone()),
+        metadata: vec![SensorMetadata { system_timestamp: 1_700_000_000.25, gnss_timestamp: None, nanoseconds: Some(12), rssi: Some(-12.5), serial: 42, name: Some("x".into()) }],
+        decode_time: None,
+    };
+    match guarded(|| serde_json::to_string(&tm)) {
+        Err((loc, m)) => {
+            ok = false;
+            r.violation(&format!("C07:panic:serialize-timed:{}", short_loc(&loc)), format!("serialising timed {} panicked: {}", hexs(bytes), msg_class(&m)), rp());
+        }
+        Ok(Err(e)) => {
+            ok = false;
+            r.violation(&format!("C07:serialize-error-timed:{shape}"), format!("timed record of {} cannot be serialised: {e}", hexs(bytes)), rp());
+        }
+        Ok(Ok(t)) => match sjson::parse(&t) {
+            Err(e) => {
+                ok = false;
+                r.violation(&format!("C07:malformed-timed:{shape}:{}", e.split(' ').take(2).collect::<Vec<_>>().join("_")), format!("timed JSON of {} rejected by a strict parser: {e}", hexs(bytes)), rp());
+            }
+            Ok(tt) => {
+                if t.contains('\n') {
+                    ok = false;
+                    r.violation(&format!("C07:newline-timed:{shape}"), format!("timed JSON of {} contains a line break", hexs(bytes)), rp());
+                }
+                let fr = tt.get("frame").and_then(|v| v.as_str().map(|s| s.to_string()));
+                if fr.as_deref() != Some(hexs(bytes).as_str()) {
+                    ok = false;
+                    r.violation("C07:timed-frame", format!("timed JSON frame = {:?}, input {}", fr, hexs(bytes)), rp());
+                } else if let Ok(again) = hex::decode(fr.unwrap()).map_err(|_| ()).and_then(|b| Message::try_from(b.as_slice()).map_err(|_| ())) {
+                    let t2 = serde_json::to_string(&again).unwrap_or_default();
+                    if t2 != text {
+                        ok = false;
+                        r.violation(&format!("C07:redecode-differs:{shape}"), format!("decoding the stored hex of {} again serialises differently", hexs(bytes)), rp());
+                    }
+                    // every key of the message must also be present, unchanged, in the timed record
+                    if let (V::Map(mk), V::Map(_)) = (&tree, &tt) {
+                        for (k, v) in mk {
+                            if tt.get(k) != Some(v) {
+                                ok = false;
+                                r.violation(&format!("C07:timed-field-differs:{shape}:{k}"), format!("{}: key {k} differs between message JSON and timed JSON", hexs(bytes)), rp());
+                                break;
+                            }
+                        }
+                    }
+                } else {
+                    ok = false;
+                    r.violation("C07:timed-frame-undecodable", format!("stored hex of {} does not decode again", hexs(bytes)), rp());
+                }
+            }
+        },
+    }
+    if ok {
+        r.class(&format!("serialised:{shape}"));
+        r.distinct(fnv(bytes));
+        if r.samples.len() < 4 {
+            r.sample(json!({"frame": hexs(bytes), "shape": shape, "json": text}));
+        }
+    }
+    true
+}
+
+/// enumerate the frame-shape space: returns (label, generator)
+fn shapes() -> Vec<(String, Box<dyn Fn(&mut Rng) -> Vec<u8>>)> {
+    let mut v: Vec<(String, Box<dyn Fn(&mut Rng) -> Vec<u8>>)> = vec![];
+    for df in 0..32u8 {
+        match df {
+            17 | 18 => {
+                let cfs: Vec<u8> = if df == 18 { (0..8).collect() } else { vec![0, 5] };
+                for cf in cfs {
+                    for tc in 0..32u8 {
+                        for st in 0..8u8 {
+                            let extra: Vec<u8> = if tc == 31 { (0..8).collect() } else { vec![0] };
+                            for ver in extra {
+                                v.push((
+                                    format!("DF{df}:CF{cf}:TC{tc}:ST{st}:V{ver}"),
+                                    Box::new(move |rng: &mut Rng| {
+                                        let mut b = Bits::from(&common::adsb_me(rng, tc));
+                                        b.set(1, 5, tc as u64).set(6, 3, st as u64);
+                                        if tc == 31 {
+                                            b.set(41, 3, ver as u64);
+                                            if rng.chance(0.8) {
+                                                b.set(9, 2, 0).set(25, 2, 0);
+                                                if st == 0 {
+                                                    b.set(13, 2, 0);
+                                                }
+                                            }
+                                        }
+                                        let mut me = [0u8; 7];
+                                        me.copy_from_slice(&b.bytes);
+                                        frames::long_es(df, cf, rng.biased(24) as u32, &me)
+                                    }),
+                                ));
+                            }
+                        }
+                    }
+                }
+            }
+            20 | 21 => {
+                for reg in common::REGISTERS {
+                    for tt in 0..4u8 {
+                        if reg != "bds30" && tt > 0 {
+                            continue;
+                        }
+                        v.push((
+                            format!("DF{df}:{reg}:threat{tt}"),
+                            Box::new(move |rng: &mut Rng| {
+                                let h = rng.biased(27) as u32;
+                                let mut mb = common::commb_for(rng, reg, (h & 0x1fff) as u16);
+                                if reg == "bds30" {
+                                    let mut b = Bits::from(&mb);
+                                    b.set(29, 2, tt as u64);
+                                    mb.copy_from_slice(&b.bytes);
+                                }
+                                frames::long_ap(df, h, &mb, rng.biased(24) as u32)
+                            }),
+                        ));
+                    }
+                }
+                v.push((format!("DF{df}:random-payload"), Box::new(move |rng: &mut Rng| common::structured(rng, df))));
+            }
+            d => v.push((format!("DF{d}"), Box::new(move |rng: &mut Rng| common::structured(rng, d)))),
+        }
+    }
+    v
+}
+
+pub fn run(a: &Args, r: &mut Report) {
+    r.rule = "shape space enumerated completely: DF 0..31 x (DF18: CF 0..7) x TC 0..31 x 3-bit subtype x (TC31: version 0..7) and DF20/21 x register hypothesis (x BDS 3,0 threat type 0..3), each shape filled N times with boundary-biased bits (N = 6 quick, 400 thorough); plus random structured frames. distinct_nontrivial = distinct ACCEPTED frames whose JSON passed every check".into();
+    if let Some(p) = &a.replay {
+        let v: serde_json::Value = serde_json::from_str(&std::fs::read_to_string(p).unwrap()).unwrap();
+        check_frame(r, &hex::decode(v["replay"]["frame"].as_str().unwrap()).unwrap(), "replay");
+        return;
+    }
+    let mut rng = Rng::new(a.seed, a.shard, "C07");
+    let sh = shapes();
+    let reps = ((if a.thorough() { 400.0 } else { 6.0 }) * a.scale).max(1.0) as u64;
+    let mut accepted_shapes = 0u64;
+    for (i, (label, gen)) in sh.iter().enumerate() {
+        if (i as u64) % a.nshards != a.shard {
+            continue;
+        }
+        let mut acc = false;
+        for _ in 0..reps {
+            let f = gen(&mut rng);
+            acc |= check_frame(r, &f, label);
+        }
+        if acc {
+            accepted_shapes += 1;
+        }
+    }
+    r.extra.insert("shapes_enumerated".into(), json!(sh.len()));
+    r.class_n("shapes:with-an-accepted-frame", accepted_shapes);
+    let n = a.budget(600_000, 30_000_000);
+    for i in 0..n {
+        let df = *rng.pick(&[17u8, 17, 18, 20, 21, 20, 21, 4, 5, 0, 16, 11, 19, 24, (i % 32) as u8]);
+        let f = common::structured(&mut rng, df);
+        check_frame(r, &f, "structured");
+    }
+    if !a.asan {
+        let mut mand: Vec<String> = ["serialised:DF0", "serialised:DF4", "serialised:DF5", "serialised:DF11", "serialised:DF16", "serialised:DF19", "serialised:DF24-31", "serialised:DF17:BDS05", "serialised:DF18:BDS05", "serialised:DF17:TC19:st1", "serialised:DF17:TC19:st3", "serialised:DF17:TC31:airborne", "serialised:DF17:TC31:surface", "serialised:DF17:TC28", "serialised:DF17:TC29", "serialised:DF20", "serialised:DF21"].iter().map(|s| s.to_string()).collect();
+        for tc in [0, 1, 2, 3, 4, 5, 6, 7, 8, 23, 24, 30] {
+            mand.push(format!("serialised:DF17:TC{tc}"));
+        }
+        r.extra.insert("mandatory".into(), json!(mand));
+    }
 }
